@@ -462,6 +462,7 @@ def run(ctx, rep):
         rep.floor('year searches', n_year, 2)
         rep.floor('month searches', n_month, 1)
 
+    leap_function(ctx, rep, frm)
     tables(ctx, rep)
     display_wiring(ctx, rep, disp, role)
     construction(ctx, rep, HD, frm)
@@ -538,9 +539,32 @@ def month_length_rules(ctx, rep, cn, Lterm, m, Y):
             work += [x[2], x[3]]
     month_conds = [c for c in conds if eval_cond(c, {m: 1}) is not None]
     leap_conds = [c for c in conds if c not in month_conds]
+    def by_evaluation():
+        # the length of the twelfth month evaluated for every year of four 30-year cycles on both sides of the epoch, against the
+        # tabular rule (11y + 14) mod 30 < 11; the other months for one leap and one common year
+        bad_, n_ = [], 0
+        for y in range(-60, 61):
+            for mi in (range(1, 13) if y in (1, 2) else (12,)):
+                v = value_at(Lterm, {m: mi, Y: y})
+                got = const_f64(v) if v is not None else None
+                if got is None:
+                    import os as _os
+                    if _os.environ.get('IPT_DEBUG_C17'):
+                        print('DEBUG value_at ->', show(v, maxd=5)[:300] if v is not None else None, '| Y =', show(Y, maxd=4)[:200])
+                    return None, f'month length not evaluable for month {mi}, year {y}'
+                n_ += 1
+                leap = (11 * y + 14) % 30 < 11
+                want = 30.0 if (mi % 2 == 1 or (mi == 12 and leap)) else 29.0
+                if got != want:
+                    bad_.append(f'month {mi} of year {y}: {got:g} days, tabular {want:g}')
+        return (not bad_), (f'month lengths agree with the tabular calendar on {n_} (month, year) cases' if not bad_ else
+                            f'{len(bad_)} (month, year) cases disagree with the tabular calendar, e.g. ' + '; '.join(bad_[:3]))
     if len(leap_conds) > 1:
-        rep.ob('R17.5', 'month-length-table', None, f'{len(leap_conds)} conditions besides the month number: ' +
-               '; '.join(show(c, maxd=4)[:70] for c in leap_conds[:4]))
+        okv, why = by_evaluation()
+        rep.ob('R17.5', 'month-length-table', okv, why if okv is not None else f'{len(leap_conds)} conditions besides the month number: ' +
+               '; '.join(show(c, maxd=4)[:70] for c in leap_conds[:4]) + f' ({why})')
+        if okv is not None:
+            rep.ob('R17.6', 'leap-rule', okv, why)
         return
     bad = []
     n = 0
@@ -601,7 +625,47 @@ def month_length_rules(ctx, rep, cn, Lterm, m, Y):
                         v = F.compare_polys(want, inner)
                         ok = False if v == 'different' else None
                         detail = f'leap rule is ({F.show_poly(inner, show)[:80]}) % 30 {op} {kb:g}; tabular: (11y + 14) mod 30 < 11'
+    if ok is None:
+        okv, why = by_evaluation()
+        if okv is not None:
+            ok, detail = okv, why
     rep.ob('R17.6', 'leap-rule', ok, detail)
+
+
+def leap_function(ctx, rep, frm):
+    """R17.6, second reading: a one-argument integer -> bool function below the conversion is the leap-year predicate; interpreted
+    on constant years (four 30-year cycles on both sides of the epoch) it must be the tabular rule (11y + 14) mod 30 < 11"""
+    cands = []
+    for p in sorted(ctx.reach(frm)):
+        b = ctx.lib.bodies.get(p)
+        if b is None or b.kind not in ('Fn', 'AssocFn') or b.arg_count != 1:
+            continue
+        if b.locals[0]['s'] == 'bool' and b.locals[1]['s'] in ('i32', 'i64', 'u32', 'u64', 'isize', 'usize', 'i16', 'u16'):
+            cands.append(p)
+    if len(cands) != 1:
+        rep.extra['leap_predicate_functions'] = cands
+        return
+    p = cands[0]
+    ty = ctx.lib.bodies[p].locals[1]['s']
+    bad, n = [], 0
+    for y in range(-60 if ty.startswith('i') else 0, 61):
+        eng = ctx.engine()
+        try:
+            tree = eng.call_entry(p, [E.C(ty, y)])
+            lv = list(E.leaves_of(tree))
+        except Exception:   # noqa
+            lv = []
+        v = lv[0].ret if len(lv) == 1 else None
+        if not (isinstance(v, tuple) and v and v[0] == 'c' and isinstance(v[2], bool)):
+            rep.ob('R17.6', f'leap-predicate:{last_seg(p)}', None, f'{p}({y}) does not fold to a constant')
+            return
+        n += 1
+        if v[2] != ((11 * y + 14) % 30 < 11):
+            bad.append(y)
+    rep.ob('R17.6', f'leap-predicate:{last_seg(p)}', not bad,
+           f'{p} is the tabular leap rule on {n} years around the epoch' if not bad else
+           f'{p} disagrees with the tabular rule (11y + 14) mod 30 < 11 for years {bad[:6]} (of {n} evaluated): month lengths and the '
+           'day-number formula count different leap days', where=ctx.lib.bodies[p].span)
 
 
 def tables(ctx, rep):
